@@ -336,6 +336,9 @@ type replayT struct {
 	Choices []int   `json:"choices,omitempty"`
 }
 
+// curPair is set while a concurrent pair is explored (so that report can record it for replay).
+var curPair []Event
+
 func runHistory(max int, hist []Event) (*world, bool) {
 	w := newWorld(max)
 	cur = w
@@ -355,6 +358,10 @@ func report(max int, hist []Event, w *world, x *vrt.Exec) {
 		hs[i] = e.String()
 	}
 	rp := replayT{Max: max, History: hist}
+	if curPair != nil {
+		// a concurrent pair: the history up to the pair, the two events, and the schedule
+		rp = replayT{Max: max, History: hist[:len(hist)-1], Pair: curPair, Choices: append([]int{}, x.Choices()...)}
+	}
 	switch x.Outcome {
 	case "ok":
 	case "panic":
@@ -397,6 +404,26 @@ func main() {
 		}
 		rp := art.Violation.Replay
 		var w *world
+		if len(rp.Pair) == 2 {
+			pc := cfg()
+			pc.LockPoints = true
+			x, err := vrt.Replay(pc, rp.Choices, func() {
+				var ok bool
+				w, ok = runHistory(rp.Max, rp.History)
+				if ok {
+					w.applyPair(rp.Pair[0], rp.Pair[1])
+				}
+			})
+			if err != nil {
+				res.InfraError("replay: %v", err)
+				res.Finish()
+			}
+			res.Eval()
+			curPair = rp.Pair
+			hist := append(append([]Event{}, rp.History...), Event{Kind: rp.Pair[0].Kind + "||" + rp.Pair[1].Kind, Peer: rp.Pair[1].Peer, Nth: rp.Pair[0].Nth})
+			report(rp.Max, hist, w, x)
+			res.Finish()
+		}
 		x := vrt.Run(cfg(), nil, func() { w, _ = runHistory(rp.Max, rp.History) })
 		res.Eval()
 		report(rp.Max, rp.History, w, x)
@@ -527,7 +554,9 @@ func main() {
 						report(max, hist, w, x)
 						return true
 					}
+					curPair = []Event{fin, e2}
 					ex.Run()
+					curPair = nil
 					trans += ex.Execs
 				}
 			}
